@@ -191,6 +191,14 @@ def search_filter(pid, r, n, stats):
                 ["G28", "G1 X30 Y2 F3000", "G2 X25 Y3 I0 J13 E1", "G1 X40 Y40 E2"],
                 ["G28", "G1 X2 Y30 F3000", "G3 X3 Y25 I13 J0 E1", "G1 X40 Y40 E2"],
                 ["G28", "G1 X15 Y30 F3000", "G2 X35 Y30 I10", "G1 Y15", "G1 X40 Y40 E2"]])]
+        if pid == "C14" and r.random() < 0.08:
+            # a configured pattern that accepts an empty parameter text, and the bare @-command in mid-episode
+            pat = r.choice(["", "^\\s*$", ".*", "^(now)?$"])
+            cfg = dict(cfg, regions=[("R", "a", 10.0, 10.0, 20.0, 20.0)],
+                       at=[("ExcludeRegion", "on", "enable_exclusion"), ("PauseExclusion", pat, "disable_exclusion")])
+            evs = [("g", "G28"), ("g", "G1 X5 Y5 Z0.2 F3000"), ("g", "G1 X6 Y5 E1"), ("g", "G1 X15 Y15"),
+                   ("at", "PauseExclusion", r.choice(["", "", " "])), ("g", "G1 X16 Y16 E2"), ("g", "G1 X17 Y16 E3"),
+                   ("at", "ExcludeRegion", "on"), ("g", "G1 X30 Y30"), ("g", "G1 X31 Y30 E4")]
         if pid == "C07" and r.random() < 0.3:
             # tracked values far outside repr's plain range end up in the exit / recovery commands
             evs = c07_extreme_program(r, cfg)
